@@ -15,6 +15,7 @@ type WebSocketPool struct {
 	maxIdle     int
 	maxActive   int
 	idleTimeout time.Duration
+	closed      bool // set by Shutdown: nothing is pooled any more
 }
 
 // connPool holds connections for a specific backend
@@ -87,6 +88,12 @@ func (p *WebSocketPool) Put(backend string, conn net.Conn) bool {
 	}
 
 	p.mu.Lock()
+	// After Shutdown nobody would ever close what is pooled now
+	if p.closed {
+		p.mu.Unlock()
+		_ = conn.Close()
+		return false
+	}
 	pool, exists := p.pools[backend]
 	if !exists {
 		pool = &connPool{
@@ -172,6 +179,12 @@ func (p *WebSocketPool) cleanupLoop() {
 	defer ticker.Stop()
 
 	for range ticker.C {
+		p.mu.RLock()
+		closed := p.closed
+		p.mu.RUnlock()
+		if closed {
+			return
+		}
 		p.cleanup()
 	}
 }
@@ -252,4 +265,5 @@ func (p *WebSocketPool) Shutdown() {
 	}
 
 	p.pools = make(map[string]*connPool)
+	p.closed = true
 }
